@@ -197,4 +197,11 @@ theorem failed_recompute_leaves_no_stale (U : Universe) (f : Nat → List V → 
     rw [heq, hnone] at hsome
     simp at hsome
 
+/-- `task.reset_data()` forgets the value held in memory and nothing else: the task stays forced (so a forced task still runs again
+on its next request, `forced_runs_again`), stored results and the run log are untouched -/
+theorem reset_keeps_forced {V : Type} (U : Store.Universe) (f : Nat → List V → V) (fuel : Nat) (s : Store.St V) (i : Nat) :
+    (Store.step U f fuel s (.reset i)).1.forced = s.forced ∧ (Store.step U f fuel s (.reset i)).1.store = s.store ∧
+    (Store.step U f fuel s (.reset i)).1.runs = s.runs ∧ (Store.step U f fuel s (.reset i)).1.mem i = none := by
+  simp [Store.step, Store.upd_same]
+
 end TCV.C07
